@@ -55,6 +55,9 @@ const (
 	alternatesPath     = "alternates"
 
 	tmpPackedRefsPrefix = "._packed-refs"
+	tmpConfigPrefix     = "._config"
+	tmpIndexPrefix      = "._index"
+	tmpShallowPrefix    = "._shallow"
 
 	packPrefix = "pack-"
 	packExt    = ".pack"
@@ -270,6 +273,12 @@ func (d *DotGit) ConfigWriter() (billy.File, error) {
 	return d.fs.Create(configPath)
 }
 
+// ConfigReplacer returns a writer whose content replaces the config file as
+// a whole when it is closed (see ReplaceOnClose).
+func (d *DotGit) ConfigReplacer() (*ReplaceOnClose, error) {
+	return d.newReplaceOnClose(configPath, tmpConfigPrefix)
+}
+
 // Config returns a file pointer for read to the config file
 func (d *DotGit) Config() (billy.File, error) {
 	return d.fs.Open(configPath)
@@ -290,6 +299,12 @@ func (d *DotGit) IndexWriter() (billy.File, error) {
 	return d.fs.Create(indexPath)
 }
 
+// IndexReplacer returns a writer whose content replaces the index file as a
+// whole when it is closed (see ReplaceOnClose).
+func (d *DotGit) IndexReplacer() (*ReplaceOnClose, error) {
+	return d.newReplaceOnClose(indexPath, tmpIndexPrefix)
+}
+
 // Index returns a file pointer for read to the index file
 func (d *DotGit) Index() (billy.File, error) {
 	return d.fs.Open(indexPath)
@@ -303,6 +318,77 @@ func (d *DotGit) StatIndex() (os.FileInfo, error) {
 // ShallowWriter returns a file pointer for write to the shallow file
 func (d *DotGit) ShallowWriter() (billy.File, error) {
 	return d.fs.Create(shallowPath)
+}
+
+// ShallowReplacer returns a writer whose content replaces the shallow file as
+// a whole when it is closed (see ReplaceOnClose). The references of a shallow
+// repository are only connected as long as every boundary commit is listed,
+// so the file must never be observable empty or half written.
+func (d *DotGit) ShallowReplacer() (*ReplaceOnClose, error) {
+	return d.newReplaceOnClose(shallowPath, tmpShallowPrefix)
+}
+
+// ReplaceOnClose is a temporary file that is renamed over target by Close,
+// the way packed-refs is rewritten, unless a write to it failed or Discard
+// was called, in which case it is removed and target is left as it was. A
+// process that stops, or a write that fails, between a truncating Create and
+// the last Write would otherwise leave target empty or torn.
+type ReplaceOnClose struct {
+	billy.File
+	fs     billy.Filesystem
+	target string
+	failed bool
+}
+
+func (d *DotGit) newReplaceOnClose(target, prefix string) (*ReplaceOnClose, error) {
+	fs := d.fs
+	if rfs, ok := fs.(*RepositoryFilesystem); ok {
+		// Creating the temporary file, renaming it and removing it must all
+		// happen in the filesystem that holds target (the common dir or
+		// the worktree's own git dir).
+		fs = rfs.mapToRepositoryFsByPath(target)
+	}
+	tmp, err := fs.TempFile("", prefix)
+	if err != nil {
+		return nil, err
+	}
+	return &ReplaceOnClose{File: tmp, fs: fs, target: target}, nil
+}
+
+// Discard makes Close drop what was written instead of replacing target.
+func (f *ReplaceOnClose) Discard() { f.failed = true }
+
+func (f *ReplaceOnClose) Write(p []byte) (int, error) {
+	n, err := f.File.Write(p)
+	if err != nil || n < len(p) {
+		f.failed = true
+	}
+	return n, err
+}
+
+func (f *ReplaceOnClose) Close() error {
+	name := f.File.Name()
+	if err := f.File.Close(); err != nil {
+		_ = f.fs.Remove(name)
+		return err
+	}
+	if f.failed {
+		return f.fs.Remove(name)
+	}
+	// Temporary files are created private to the user; the file they replace
+	// keeps the permissions it had (those of a plain Create if it is new).
+	if ch, ok := f.fs.(billy.Chmod); ok {
+		mode := os.FileMode(0o644)
+		if fi, err := f.fs.Stat(f.target); err == nil {
+			mode = fi.Mode().Perm()
+		}
+		_ = ch.Chmod(name, mode)
+	}
+	if err := f.fs.Rename(name, f.target); err != nil {
+		_ = f.fs.Remove(name)
+		return err
+	}
+	return nil
 }
 
 // Shallow returns a file pointer for read to the shallow file
